@@ -633,6 +633,50 @@ func genProto() (string, error) {
 	fmt.Fprintf(&b, "/-- `CheckSignature` refuses a public key that is not in its canonical encoding -/\ndef canonicalKeyEnforced : Bool := %v\n", keyEnf)
 	b.WriteString("\n")
 
+	// every place in fsm/*.go that writes Account.Nonce or builds an Account record (the RLP.V2 nonce
+	// floor lives there: a record rebuilt without carrying Nonce over resets the floor)
+	fsmFiles, _ := filepath.Glob(filepath.Join(*repo, "fsm/*.go"))
+	sort.Strings(fsmFiles)
+	var nonceWrites, accountLits []string
+	for _, fp := range fsmFiles {
+		base := filepath.Base(fp)
+		if strings.HasSuffix(base, "_test.go") || strings.HasSuffix(base, ".pb.go") || strings.HasPrefix(base, "verif_hooks") {
+			continue
+		}
+		pf, e := g.ParseFile(fp)
+		if e != nil {
+			return "", e
+		}
+		for _, d := range pf.AST.Decls {
+			fd, ok := d.(*ast.FuncDecl)
+			if !ok || fd.Body == nil {
+				continue
+			}
+			ast.Inspect(fd.Body, func(n ast.Node) bool {
+				switch x := n.(type) {
+				case *ast.AssignStmt:
+					for _, l := range x.Lhs {
+						if se, ok := l.(*ast.SelectorExpr); ok && se.Sel.Name == "Nonce" {
+							nonceWrites = append(nonceWrites, base+":"+fd.Name.Name+": "+g.StmtText(x))
+						}
+					}
+				case *ast.CompositeLit:
+					if x.Type != nil && g.ExprText(x.Type) == "Account" {
+						var keys []string
+						for _, el := range x.Elts {
+							if kv, ok := el.(*ast.KeyValueExpr); ok {
+								keys = append(keys, g.ExprText(kv.Key))
+							}
+						}
+						accountLits = append(accountLits, base+":"+fd.Name.Name+": Account{"+strings.Join(keys, ", ")+"}")
+					}
+				}
+				return true
+			})
+		}
+	}
+	fmt.Fprintf(&b, "/-- every assignment to a `.Nonce` field in fsm/*.go -/\ndef accountNonceWrites : List String := %s\n", strList(nonceWrites))
+	fmt.Fprintf(&b, "/-- every `Account{...}` literal in fsm/*.go with the fields it sets -/\ndef accountLiterals : List String := %s\n\n", strList(accountLits))
 	// 4. public-key decoding by length (lib/crypto/key.go)
 	kf, err := g.ParseFile(filepath.Join(*repo, "lib/crypto/key.go"))
 	if err != nil {
